@@ -95,7 +95,7 @@ func afterFailureRule(p *core.Prog, r *core.Report, rule string) {
 				continue
 			}
 			g := core.CalleeFn(c)
-			if g == nil || core.FuncPkg(g) != core.FuncPkg(fn) || canon(g) == "blobUploadCancel" || inert(g, 0) {
+			if g == nil || core.FuncPkg(g) != core.FuncPkg(fn) || isCancelFn(g) || inert(g, 0) {
 				continue
 			}
 			bad = g.Name() + " at " + p.Pos(in.Pos())
@@ -109,7 +109,7 @@ func afterFailureRule(p *core.Prog, r *core.Report, rule string) {
 				continue
 			}
 			g := core.CalleeFn(c)
-			if g == nil || core.FuncPkg(g) != core.FuncPkg(fn) || canon(g) == "blobUploadCancel" || inert(g, 0) {
+			if g == nil || core.FuncPkg(g) != core.FuncPkg(fn) || isCancelFn(g) || inert(g, 0) {
 				continue
 			}
 			if _, isDefer := in.(*ssa.Defer); isDefer {
@@ -536,7 +536,7 @@ func c05R3(p *core.Prog, r *core.Report) {
 			return false
 		}
 		g := core.CalleeFn(c)
-		return g != nil && canon(g) == "blobUploadCancel"
+		return g != nil && isCancelFn(g)
 	}
 	// the cancel may be deferred behind a flag: `abandon := false; defer func(){ if abandon { cancel } }()`.
 	// Setting the flag then counts as the cancel.
@@ -979,4 +979,28 @@ func readKeepsSourceRule(p *core.Prog, r *core.Report, rule string) {
 		r.Check(bad == "", rule, p.FuncName(fn), "source stays open", p.Pos(fn.Pos()),
 			"the underlying source is closed in "+bad+": a file-backed blob cannot be sought back to its start afterwards, so a resent PUT or the chunked fall-back fails although the input was well-formed")
 	}
+}
+
+// isCancelFn: the cancel request of an upload session, or a function literal that does nothing but
+// send it (`abandon := func() { _ = reg.blobUploadCancel(ctx, r, putURL) }`).
+func isCancelFn(g *ssa.Function) bool {
+	if g == nil {
+		return false
+	}
+	if canon(g) == "blobUploadCancel" {
+		return true
+	}
+	if g.Parent() == nil || len(g.Blocks) == 0 || len(g.Blocks) > 3 {
+		return false
+	}
+	n, other := 0, false
+	core.Calls(g, func(c ssa.CallInstruction) {
+		h := core.CalleeFn(c)
+		if h != nil && canon(h) == "blobUploadCancel" {
+			n++
+		} else {
+			other = true
+		}
+	})
+	return n == 1 && !other
 }
